@@ -18,7 +18,6 @@ class GlobSplitSplit(Contract):
     module, qual, props = 'glob', '_GlobSplit.split', ('C02', 'C04', 'C05', 'C06', 'C16')
     assumptions = ('the character scanner (first loop) and store() are abstract: after them `parts` is an arbitrary non-empty list of parts; store() has its own contract',
                    'parts[0] before the epilogue is referred to through uninterpreted attribute functions of the list')
-    forking = ('self._references', 'self._sequence')
     mutates = {'self.store': [1]}
     allowed_raises = ('ValueError',)
 
@@ -36,10 +35,15 @@ class GlobSplitSplit(Contract):
     def P0(parts, attr):
         return pyvc.truthy(U('attr.' + attr, U('getitem', ObjV(pyvc.to_obj(parts)), Int(0))))
 
-    def prefix_wanted(self, parts, st):
+    def prefix_wanted(self, parts, st, lower=False):
+        """when the implicit prefix is due.  Upper bound (necessity): rglob without drive, or MATCHBASE with a single part and no separator at all;
+        lower bound (sufficiency): additionally the part is not dir_only - a conjunct that is implied by "no separator" through store() (dir_only is set
+        only for values cut at a separator) but not visible here because the scanner is abstract; code may or may not test it."""
         f = self.f
-        return z3.Or(z3.And(f['extmatchbase'], z3.Not(self.P0(parts, 'is_drive'))),
-                     z3.And(f['matchbase'], parts.a['length'] == 1, z3.Not(self.P0(parts, 'dir_only')), st.env['split_index'].a['length'] == 0))
+        mb = z3.And(f['matchbase'], parts.a['length'] == 1, st.env['split_index'].a['length'] == 0)
+        if lower:
+            mb = z3.And(mb, z3.Not(self.P0(parts, 'dir_only')))
+        return z3.Or(z3.And(f['extmatchbase'], z3.Not(self.P0(parts, 'is_drive'))), mb)
 
     def long_prefix(self):
         return z3.And(self.f['globstarlong'], self.f['follow'])
@@ -74,9 +78,10 @@ class GlobSplitSplit(Contract):
             return lambda eng, node, st, args: Bool(z3.Bool(pyvc.fresh(name)))
 
         def h_scan(name):
+            # the scanner helpers are abstract values here; their StopIteration exits only rewind the (abstract) iterator and are
+            # not modelled (this contract is about the epilogue; it keeps the path count down)
             def h(eng, node, st, args):
-                return Fork([(z3.Bool(pyvc.fresh(name + '_ok')), ObjV(z3.Const(pyvc.fresh(name + '_value'), Obj)), None),
-                             (z3.Bool(pyvc.fresh(name + '_stops')), Outcome('raise', exc='StopIteration'), None)])
+                return ObjV(z3.Const(pyvc.fresh(name + '_value'), Obj))
             return h
 
         def h_index(eng, node, st, args):
@@ -142,7 +147,7 @@ class GlobSplitSplit(Contract):
             if g['$inserted'] or g['$replaced']:
                 return z3.BoolVal(True)          # necessity was an obligation at the site
             parts = c.st.env['parts']
-            return z3.Not(z3.And(me.prefix_wanted(parts, c.st), z3.Or(z3.Not(me.P0(parts, 'is_globstar')), z3.And(me.long_prefix(), z3.Not(me.P0(parts, 'is_globstarlong'))))))
+            return z3.Not(z3.And(me.prefix_wanted(parts, c.st, lower=True), z3.Or(z3.Not(me.P0(parts, 'is_globstar')), z3.And(me.long_prefix(), z3.Not(me.P0(parts, 'is_globstarlong'))))))
 
         def no_abs(c):
             parts = c.st.env['parts'] if not (c.st.ghost['$inserted']) else None
